@@ -367,6 +367,13 @@ class ResponseHandler(BaseProtocol, DataQueue[tuple[RawResponseMessage, StreamRe
             if message.should_close:
                 self._should_close = True
             if message.code < 100 or message.code > 199:
+                if self._final_response_seen:
+                    # A further response after the final one of this exchange,
+                    # possibly in the same segment as the end of its body (the
+                    # connection may already be back in the pool by now).
+                    self._should_close = True
+                    if self.transport is not None:
+                        self.transport.close()
                 self._final_response_seen = True
 
             self._payload = payload
